@@ -27,14 +27,27 @@ WANT = {'C01', 'C08'}
 OPTS = {'max_sessions': 3, 'max_chains': 3, 'max_requests': 5, 'p_inspect': 0.1, 'p_force': 0.12, 'p_fault': 0.08, 'p_spawn': 0.15}
 
 
-def run_history_case(rng, res: CaseResult, want, opts, feat=None, n_variants=3, at_most_once=False):
-    if rng.random() < 0.25:
+def run_history_case(rng, res: CaseResult, want, opts, feat=None, n_variants=3, at_most_once=False, name_mode=False):
+    if name_mode:
+        # name mode: results are addressed by config name; one file is never mounted twice (two mounts would share a location by design)
+        feat = dict(feat or {}, same_file_twice=False, dup_module_file=False)
+        opts = dict(opts, parameter_mode=False)
+        res.count('name_mode_histories')
+    if rng.random() < 0.25 and not name_mode:
         spec, roots = S.twin_spec(rng, feat)
         res.count('twin_family_histories')
     else:
         spec = S.gen_spec(rng, feat)
-        roots = make_variants(rng, spec, rng.randint(1, n_variants), feat)
-    refs = [Ref(spec, r) for r in roots]
+        roots = make_variants(rng, spec, rng.randint(2 if name_mode else 1, n_variants), feat, prefer_file_variants=name_mode)
+    refs = [Ref(spec, r, parameter_mode=not name_mode) for r in roots]
+    if name_mode:
+        for r_ in refs:
+            seen_fp = set()
+            for (ns_, file_, part_) in r_.instances:
+                if (file_, part_) in seen_fp:
+                    res.count('generator_rejects')
+                    return
+                seen_fp.add((file_, part_))
     if any(r.error is not None or not r.tasks for r in refs):
         res.count('generator_rejects')
         return
